@@ -95,6 +95,25 @@ class C03(DocProp):
                 desc = self.classify(oa, ob, o, "relayout", dict(case, profile="listlike-continuation"), d)
                 col.violation("relayout", desc, dict(case, opts=[o]), {"layout_a": a, "layout_b": b, "line": d[0], "a": d[1], "b": d[2]})
 
+    def _check_pair(self, case, col):
+        """An explicit pair of layouts of one document (witnesses of repaired defects); same premise as relayout2."""
+        from vf import astn
+
+        a, b = case["a"], case["b"]
+        if astn.tree(a) != astn.tree(b):
+            col.count("pair_premise_failed_layouts_read_differently")
+            return
+        for o in case["opts"]:
+            col.case(2)
+            col.mon("relayout", 2)
+            oa, ob = fm.fmt(a, **o), fm.fmt(b, **o)
+            if isinstance(oa, fm.Raised) or isinstance(ob, fm.Raised):
+                continue
+            if oa != ob:
+                d = first_line_diff(oa, ob)
+                col.violation("relayout", f"C03/relayout/core/{line_kind(d[1] or d[2] or '')}", dict(case, opts=[o]),
+                              {"line": d[0], "a": d[1], "b": d[2]})
+
     def check(self, case, col: Collector):
         getattr(self, "_check_" + case["kind"])(case, col)
 
